@@ -331,6 +331,11 @@ static inline uint64_t cxx_str_bytes(uint64_t n) { return n + 1; }
     np[n] = 0; v->p = np; v->n = n; v->cap = n; } \
   static inline _Bool str_eq_cstr(str a, const char *s) \
   { uint64_t m = cxx_strlen(s); if (m != a.n) return 0; for (uint64_t __k = 0; __k < m; ++__k) if (a.p[__k] != s[__k]) return 0; return 1; } \
+  static inline void str_erase_pos(str *v, uint64_t pos, uint64_t cnt) \
+  { if (pos > v->n) { __exc = EXC_out_of_range; return; } \
+    uint64_t m = v->n - pos; if (cnt < m) m = cnt; \
+    for (uint64_t __k = pos + m; __k < v->n; ++__k) v->p[__k - m] = v->p[__k]; \
+    v->n -= m; } \
   static inline str str_substr(str a, uint64_t pos, uint64_t cnt) \
   { if (pos > a.n) { __exc = EXC_out_of_range; str z = {0}; return z; } \
     uint64_t m = a.n - pos; if (cnt < m) m = cnt; return str_from_n(a.p + pos, m); } \
